@@ -81,6 +81,39 @@ impl J {
             }
         }
     }
+    /// Single-line rendering (for JSONL traces).
+    pub fn compact(&self) -> String {
+        let mut s = String::new();
+        self.write_compact(&mut s);
+        s
+    }
+    fn write_compact(&self, out: &mut String) {
+        match self {
+            J::Arr(a) => {
+                out.push('[');
+                for (i, v) in a.iter().enumerate() {
+                    if i > 0 {
+                        out.push(',');
+                    }
+                    v.write_compact(out);
+                }
+                out.push(']');
+            }
+            J::Obj(o) => {
+                out.push('{');
+                for (i, (k, v)) in o.iter().enumerate() {
+                    if i > 0 {
+                        out.push(',');
+                    }
+                    esc(k, out);
+                    out.push(':');
+                    v.write_compact(out);
+                }
+                out.push('}');
+            }
+            other => other.write(out, 0),
+        }
+    }
     pub fn pretty(&self) -> String {
         let mut s = String::new();
         self.write(&mut s, 0);
